@@ -575,6 +575,11 @@ func (h *RunHarness) Poke(id, reg string, v int) {
 	h.Rec.Emit(Ev{"ev": "Poke3", "fan": id, "reg": reg, "val": v})
 }
 
+// Ctl returns the controller of a fan.
+func (h *RunHarness) Ctl(id string) *controller.DefaultFanController {
+	return h.fs[id].ctl.(*controller.DefaultFanController)
+}
+
 func qmodeOf(rf RunFan) string {
 	if rf.QMode == "" {
 		return "floor"
